@@ -7,7 +7,7 @@ reg(Prop('C19', [
            exhaustive='required DIE -> otherwise unreachable DIE through every reference carrier (exprloc / live, empty, inverted, tombstoned location-list entry) x every reference-carrying operation x nesting 0/1 in DW_OP_entry_value x 4 encodings'),
     Stream('c19.tags', 5000, 200000, 'spec',
            exhaustive='every DW_TAG 0x01..0x50 and every vendor tag of constants.rs as child x 4 parent tags x DW_AT_declaration x which DIE is required'),
-    Stream('c19.big', 5000, 100000, 'spec'),
+    Stream('c19.big', 5000, 60000, 'spec'),
 ], clauses=[
     'worklist_correct: FilterDependencies::get_reachable returns exactly the strictly sorted enumeration of the nodes reachable from the required set (all dependency maps, all required lists; never out of fuel with fuel = #nodes + #edges + 2)',
     'closure: for every well-formed forest and every required predicate the reserved set is the LEAST set containing the required DIEs and closed under parent, under the references the filter records, and under member-like children of retained non-namespace parents (children of the unit root get no parent edge)',
